@@ -355,6 +355,8 @@ def replay(case):
                 b = json.dumps(mask_literals(pb["ast"], []), sort_keys=True)
         o, _ = judge_string(w, case["value"], case["style"], case["text"], case["ctx"], case["src"], case["dialect"],
                             b if case["style"] != "fstring_fragment" else None, case["dialect"] in ("sqlite", "generic"))
-        out = [{"property": "C08", "symptom": s, "shape": "", "witness": case, "detail": d} for s, d in o]
+        small = case["value"]
+        feat = ("backslash-quote" if "\\'" in small else "quote-pair" if "''" in small else "backslash" if "\\" in small else json.dumps(small))
+        out = [{"property": "C08", "symptom": s.split(":")[0], "shape": "%s/%s" % (case["dialect"], feat), "witness": case, "detail": d} for s, d in o]
     w.close()
     return out
